@@ -669,7 +669,7 @@ impl Prop for C14 {
         run(c, o)
     }
     fn rule() -> &'static str {
-        "model-based proptest over fault histories: scripted connector for Endpoint::connect_with_connector[_lazy] (per attempt: succeed -> in-memory pipe to a tonic server, or fail with ConnectionRefused / ConnectionReset / TimedOut / Other, or hang under a connect_timeout) x up to 12 steps over {unary call, server-streaming call, kill the current connection, idle} each issued at a quiescent point of a paused single-threaded runtime x lazy/eager x pipe fragmentation x scheduler seed. Reference model: connection state {none, live}; a call on a live connection succeeds with the scripted response; a call without one makes exactly one connector invocation, succeeds iff that attempt succeeds, otherwise fails with UNAVAILABLE (after exactly connect_timeout for a hanging attempt) and the next call makes a fresh attempt; eager connect reports a failing first attempt immediately; total connector invocations equal the model's; nothing panics; every call resolves (virtual-time watchdog). Also: calls whose deadline has already expired interleaved in the history (their own result is not judged; they consume an attempt like any call and must not leave a failure behind for the next call); a connector that reports not-ready while its connection is alive; and a balanced-channel family (2% of cases): Channel::balance_list over 1-3 loopback ports nobody listens on (real TCP, real-time runtime), 1-4 calls, each must be answered with an error while at most 200 connection attempts (counted through Reconnect's own trace events) are started for it. Non-trivial: the history contains a recovery (fail->succeed or kill->call->succeed), or a balanced case with more than one call. A monitor thread reading the runtime metrics recognises a certain deadlock of a balanced-channel call (worker parked, no socket registered with the I/O driver, nothing polled for 150 observations). Unix-socket family (1%): Endpoint unix:<path> through tonic's own connector, lazy or eager, 1-4 calls, the server starts listening right before call k: calls before k fail with UNAVAILABLE, calls from k on succeed (recovery), eager connect reports the initial failure. balance_list is also fed from an iterator without an upper size bound."
+        "model-based proptest over fault histories: scripted connector for Endpoint::connect_with_connector[_lazy] (per attempt: succeed -> in-memory pipe to a tonic server, or fail with ConnectionRefused / ConnectionReset / TimedOut / Other, or hang under a connect_timeout) x up to 12 steps over {unary call, server-streaming call, kill the current connection, idle} each issued at a quiescent point of a paused single-threaded runtime x lazy/eager x pipe fragmentation x scheduler seed. Reference model: connection state {none, live}; a call on a live connection succeeds with the scripted response; a call without one makes exactly one connector invocation, succeeds iff that attempt succeeds, otherwise fails with UNAVAILABLE (after exactly connect_timeout for a hanging attempt) and the next call makes a fresh attempt; eager connect reports a failing first attempt immediately; total connector invocations equal the model's; nothing panics; every call resolves (virtual-time watchdog). Also: calls whose deadline has already expired interleaved in the history (their own result is not judged; they consume an attempt like any call and must not leave a failure behind for the next call); a connector that reports not-ready while its connection is alive; and a balanced-channel family (2% of cases): Channel::balance_list over 1-3 loopback ports nobody listens on (real TCP, real-time runtime), 1-4 calls, each must be answered with an error while at most 200 connection attempts (counted through Reconnect's own trace events) are started for it. Non-trivial: the history contains a recovery (fail->succeed or kill->call->succeed), or a balanced case with more than one call. A monitor thread reading the runtime metrics recognises a certain deadlock of a balanced-channel call (worker parked, no socket registered with the I/O driver, nothing polled for 150 observations). Unix-socket family (1%): Endpoint unix:<path> through tonic's own connector, lazy or eager, 1-4 calls, the server starts listening right before call k: calls before k fail with UNAVAILABLE, calls from k on succeed (recovery), eager connect reports the initial failure. balance_list is also fed from an iterator without an upper size bound. The unix-socket family sets connect_timeout(Duration::MAX) on even call counts."
     }
     fn assumptions() -> Vec<String> {
         vec![
